@@ -4,6 +4,7 @@ import (
 	"bufio"
 	"bytes"
 	"encoding/json"
+	"errors"
 	"fmt"
 	"io"
 	"log/slog"
@@ -56,6 +57,8 @@ type pipeCase struct {
 	// these offsets of the first source (no end-of-file is reported: the read blocks)
 	SilenceAt []int `json:"silence_before_offsets,omitempty"`
 	SilenceMs int   `json:"silence_ms,omitempty"`
+	// every other transient interruption is an i/o timeout error instead of end-of-file
+	Timeouts bool `json:"interruptions_include_io_timeouts,omitempty"`
 }
 
 // chunkReader hands out the input in chunks with pauses, then reports io.EOF.
@@ -76,6 +79,9 @@ type chunkReader struct {
 	// the longest time between two end-of-file results returned by consecutive reads
 	lastEOF   time.Time
 	maxEOFGap time.Duration
+	// every other transient interruption is reported as an i/o timeout instead of EOF
+	timeouts       bool
+	nInterruptions int
 }
 
 func (cr *chunkReader) noteEOF() {
@@ -121,6 +127,11 @@ func (cr *chunkReader) Read(p []byte) (int, error) {
 			}
 			cr.eofAt = cr.eofAt[1:]
 			cr.noteEOF()
+			cr.nInterruptions++
+			if cr.timeouts && cr.nInterruptions%2 == 1 {
+				// the source's own way of saying "nothing yet"
+				return 0, errors.New("read /dev/ttyUSB0: i/o timeout")
+			}
 			return 0, io.EOF
 		}
 		if cr.off+n > cr.eofAt[0] {
@@ -246,6 +257,7 @@ func execC09(c *child.Ctx, k pipeCase, cj []byte, traces, pairs map[uint64]struc
 			cr.silence = time.Duration(k.SilenceMs) * time.Millisecond
 		}
 		if si == 0 && k.TolMs > 0 {
+			cr.timeouts = k.Timeouts
 			cr.eofAt = append([]int(nil), k.EOFAt...)
 			cr.pauseMs = append([]int(nil), k.PauseMs...)
 		}
@@ -515,6 +527,27 @@ func monC09(c *child.Ctx, replay json.RawMessage) {
 			}
 			k.Chunk = 5000
 			c.Count("runs_with_interruption_after_a_held_up_consumer", 1)
+		}
+		if k.TolMs > 0 && i%16 >= 8 {
+			k.Timeouts = true
+			c.Count("runs_with_io_timeout_interruptions", 1)
+		}
+		if i%40 == 9 {
+			// a long consumer list, most entries nil, the live ones far down the list
+			// and not always ready
+			var long []consumerCfg
+			for j := r.Range(33, 70); j > 0; j-- {
+				long = append(long, consumerCfg{Nil: true})
+			}
+			for _, at := range []int{0, len(long) - 1, 32 + r.Intn(len(long)-32), 31} {
+				long[at] = consumerCfg{Cap: []int{0, 1}[r.Intn(2)], Profile: 2 + r.Intn(2)}
+			}
+			k.Consumers = long
+			if len(input) > 3000 {
+				input = input[:3000]
+				k.Input = hexs(input)
+			}
+			c.Count("runs_with_a_long_consumer_list", 1)
 		}
 		cj := c.BeginV(k)
 		nbase := execC09(c, k, cj, traces, pairs)
